@@ -40,7 +40,7 @@ NATURAL = {     # naturally failing programs, one for every pass that can fail
     'data-range': 'a:\ndb 256\n',
 }
 HEX_VALID = [None, '0', '0x08000000', '0xffffff00', 'END']        # END = 2^32 - len(program): the last offset that fits
-HEX_INVALID = ['zz', '0x', '-1', '4294967296', '0xffffffff', 'END+1', 'END+2']
+HEX_INVALID = ['zz', '0x', '-1', '4294967296', '0xffffffff', 'END+1', 'END+2', '']           # '' = an option value that is present but empty
 SENT = {'out': b'OLD-BINARY\x00\x01', 'labels': b'old_label 0x00000042\n', 'hex': b':00000001FF\nOLD-HEX\n'}
 
 
